@@ -208,6 +208,12 @@ class World:
             keys = self.multi_keys[e["dom"]]
             ops = {k: self.build(x) for k, x in zip(keys, e["ents"]) if x is not None}
             return ift.BlockDiagonalOperator(self.doms[e["dom"]], ops)
+        if op == "sumN":
+            from nifty.cl.operators.sum_operator import SumOperator
+            return SumOperator.make([self.build(x) for x in e["args"]], [bool(n) for n in e["neg"]])
+        if op == "chainN":
+            from nifty.cl.operators.chain_operator import ChainOperator
+            return ChainOperator.make([self.build(x) for x in e["args"]])
         if op == "add":
             return self.build(e["a"]) + self.build(e["b"])
         if op == "sub":
@@ -294,6 +300,19 @@ def naive_matrix(W, e):
         return X.zeros(W.sizes[e["tgt"]], W.sizes[e["dom"]])
     if op == "block":
         return X.mblocks([X.eye(W.sizes[sd]) if x is None else naive_matrix(W, x) for sd, x in zip(e["subdoms"], e["ents"])])
+    if op == "sumN":
+        acc = None
+        for x, n in zip(e["args"], e["neg"]):
+            m = naive_matrix(W, x)
+            m = X.mneg(m) if n else m
+            acc = m if acc is None else X.madd(acc, m)
+        return acc
+    if op == "chainN":
+        acc = None
+        for x in e["args"]:
+            m = naive_matrix(W, x)
+            acc = m if acc is None else X.mmul(acc, m)
+        return acc
     if op == "add":
         return X.madd(naive_matrix(W, e["a"]), naive_matrix(W, e["b"]))
     if op == "sub":
@@ -343,6 +362,23 @@ def mode_matrix(W, e, mode):
         return ma(m, adj, inv)
     if op == "block":
         return X.mblocks([X.eye(W.sizes[sd]) if x is None else mode_matrix(W, x, mode) for sd, x in zip(e["subdoms"], e["ents"])])
+    if op == "sumN":
+        if inv:
+            return ma(naive_matrix(W, e), adj, inv)
+        acc = None
+        for x, n in zip(e["args"], e["neg"]):
+            m = mode_matrix(W, x, mode)
+            m = X.mneg(m) if n else m
+            acc = m if acc is None else X.madd(acc, m)
+        return acc
+    if op == "chainN":
+        ms = [mode_matrix(W, x, mode) for x in e["args"]]
+        if adj != inv:
+            ms = ms[::-1]
+        acc = ms[0]
+        for m in ms[1:]:
+            acc = X.mmul(acc, m)
+        return acc
     if op in ("add", "sub"):
         if inv:
             return ma(naive_matrix(W, e), adj, inv)
@@ -388,6 +424,11 @@ def required_cap(W, e):
         for x in e["ents"]:
             if x is not None:
                 c &= required_cap(W, x)
+        return c
+    if op in ("sumN", "chainN"):
+        c = 3 if op == "sumN" else 15
+        for x in e["args"]:
+            c &= required_cap(W, x)
         return c
     if op in ("add", "sub"):
         return 3 & required_cap(W, e["a"]) & required_cap(W, e["b"])
@@ -445,7 +486,7 @@ def size_of(e):
     n = 1
     for _, c in children(e):
         n += size_of(c)
-    for x in e.get("ents", []) or []:
+    for x in (e.get("ents", []) or []) + (e.get("args", []) or []):
         if isinstance(x, dict):
             n += size_of(x)
     return n
